@@ -31,6 +31,17 @@ fn set_mtime(p: &std::path::Path, size: u64) {
     f.set_modified(std::time::SystemTime::UNIX_EPOCH + std::time::Duration::new(1_600_000_000 + size % 1000, 123_456_789)).unwrap();
 }
 
+/// a SystemTime as (before the epoch?, distance from the epoch in ns)
+fn signed_ns(t: std::time::SystemTime) -> (bool, u64) {
+    match t.duration_since(std::time::UNIX_EPOCH) {
+        Ok(d) => (false, d.as_secs() * 1_000_000_000 + d.subsec_nanos() as u64),
+        Err(e) => {
+            let d = e.duration();
+            (true, d.as_secs() * 1_000_000_000 + d.subsec_nanos() as u64)
+        }
+    }
+}
+
 fn write_file(p: &std::path::Path, size: u64) {
     let mut f = std::io::BufWriter::new(std::fs::File::create(p).unwrap());
     let mut off = 0u64;
@@ -71,6 +82,18 @@ pub fn run(rt: &tokio::runtime::Runtime, dir: &std::path::Path, c: &FileCase, ch
             let m = f.metadata().unwrap();
             (f, m)
         }
+        4 => {
+            // a regular file dated before 1970 (a restored or mis-dated file), with a sub-second part:
+            // tv_sec = -(size % 1000) - 31_536_000, tv_nsec = 250_000_000 (or a whole second for odd sizes)
+            write_file(&path, c.size);
+            let back = std::time::Duration::new(31_536_000 + c.size % 1000, if c.size % 2 == 0 { 0 } else { 750_000_000 });
+            let f = std::fs::OpenOptions::new().write(true).open(&path).unwrap();
+            f.set_modified(std::time::SystemTime::UNIX_EPOCH - back).unwrap();
+            drop(f);
+            let f = std::fs::File::open(&path).unwrap();
+            let m = f.metadata().unwrap();
+            (f, m)
+        }
         _ => {
             write_file(&path, c.size);
             if (c.size + c.a + c.e) % 2 == 0 {
@@ -81,8 +104,7 @@ pub fn run(rt: &tokio::runtime::Runtime, dir: &std::path::Path, c: &FileCase, ch
             (f, m)
         }
     };
-    let mtime = meta.modified().unwrap().duration_since(std::time::UNIX_EPOCH).unwrap();
-    let mtime_ns = mtime.as_secs() * 1_000_000_000 + mtime.subsec_nanos() as u64;
+    let (mtime_neg, mtime_ns) = signed_ns(meta.modified().unwrap());
     let ino = meta.ino();
     let size = meta.len();
     let crf = std::panic::catch_unwind(std::panic::AssertUnwindSafe(|| Crf::new(file, http::HeaderMap::new())));
@@ -94,12 +116,15 @@ pub fn run(rt: &tokio::runtime::Runtime, dir: &std::path::Path, c: &FileCase, ch
         Ok(Err(_)) => Val::L(vec![Val::N(0)]),
         Ok(Ok(crf)) => {
             let crf = std::sync::Arc::new(crf);
-            let etag = crf.etag().map(|e| e.as_bytes().to_vec()).unwrap_or_default();
+            let etag = match std::panic::catch_unwind(std::panic::AssertUnwindSafe(|| crf.etag())) {
+                Ok(e) => e.map(|e| e.as_bytes().to_vec()).unwrap_or_default(),
+                Err(_) => {
+                    checks.push("C18:etag-panics-for-a-regular-file".into());
+                    vec![]
+                }
+            };
             let len0 = crf.len();
-            let lm0 = crf.last_modified().map(|t| {
-                let d = t.duration_since(std::time::UNIX_EPOCH).unwrap();
-                d.as_secs() * 1_000_000_000 + d.subsec_nanos() as u64
-            });
+            let lm0 = crf.last_modified().map(signed_ns);
             let (a, e) = (c.a, c.e);
             let truncs = c.truncs.clone();
             let p2 = path.clone();
@@ -185,7 +210,7 @@ pub fn run(rt: &tokio::runtime::Runtime, dir: &std::path::Path, c: &FileCase, ch
             if crf.len() != len0 || crf.len() != size {
                 checks.push("C18:len-not-that-of-construction".into());
             }
-            if lm0 != Some(mtime_ns) || crf.last_modified().map(|t| t.duration_since(std::time::UNIX_EPOCH).unwrap().as_nanos() as u64) != lm0 {
+            if lm0 != Some((mtime_neg, mtime_ns)) || crf.last_modified().map(signed_ns) != lm0 {
                 checks.push("C18:mtime-not-that-of-construction".into());
             }
             npolls = polls.len() as u64;
@@ -193,10 +218,10 @@ pub fn run(rt: &tokio::runtime::Runtime, dir: &std::path::Path, c: &FileCase, ch
                 flens.push(Val::N(*fl));
                 shorts.push(Val::N(*sh));
             }
-            Val::L(vec![Val::N(1), Val::B(etag), Val::N(len0), Val::N(lm0.unwrap_or(0)), Val::L(polls.into_iter().map(|p| p.0).collect())])
+            Val::L(vec![Val::N(1), Val::B(etag), Val::N(len0), match lm0 { Some((true, n)) => Val::L(vec![Val::N(1), Val::N(n)]), Some((false, n)) => Val::N(n), None => Val::N(0) }, Val::L(polls.into_iter().map(|p| p.0).collect())])
         }
     };
-    let input = Val::L(vec![Val::N(c.kind), Val::N(ino), Val::N(size), Val::N(mtime_ns), Val::N(c.a), Val::N(c.e), Val::L(flens), Val::L(shorts), Val::N(npolls)]);
+    let input = Val::L(vec![Val::N(c.kind), Val::N(ino), Val::N(size), Val::N(mtime_ns), Val::N(c.a), Val::N(c.e), Val::L(flens), Val::L(shorts), Val::N(npolls), Val::N(mtime_neg as u64)]);
     Val::L(vec![input, obs]).to_string()
 }
 
@@ -350,6 +375,10 @@ pub fn gen_c18(rng: &mut Rng, thorough: bool, emit: &mut dyn FnMut(FileCase)) {
     let big: u64 = (1u64 << 32) + 131079;
     for (a, e) in [(0u64, 1u64 << 32), (0, (1 << 32) + 5), (5, (1 << 32) + 5), (70000, (1 << 32) + 70000), (0, big), (65536, (1u64 << 32) + 65536 + 65536), (1, 1 << 32)] {
         emit(FileCase { kind: 3, size: big, a, e, truncs: vec![], companion: None, class: format!("G:sparse size={} range={}..{}", big, a, e) });
+    }
+    // regular files dated before 1970, whole-second and with a sub-second part
+    for (size, a, e) in [(1000u64, 0u64, 1000u64), (1001, 10, 20), (70001, 0, 70001), (4, 1, 3)] {
+        emit(FileCase { kind: 4, size, a, e, truncs: vec![], companion: None, class: format!("G:pre-1970 size={} range={}..{}", size, a, e) });
     }
     emit(FileCase { kind: 1, size: 0, a: 0, e: 0, truncs: vec![], companion: None, class: "N:directory".into() });
     emit(FileCase { kind: 2, size: 0, a: 0, e: 0, truncs: vec![], companion: None, class: "N:dev-null".into() });
